@@ -604,9 +604,11 @@ class Channel(typing.ContextManager):
         if self.death_strings == []:
             return
 
-        # Chunk size is the shortest death-string.
+        # Chunk size is the shortest death-string (= half of its ringbuffer).
+        # With bigger chunks, a match followed by more than `len(string)` bytes
+        # in the same chunk would drop out of the ringbuffer before it is seen.
         chunk_size = min(
-            map(lambda t: typing.cast(int, t[2].maxlen), self.death_strings)
+            map(lambda t: typing.cast(int, t[2].maxlen) // 2, self.death_strings)
         )
 
         for chunk in (
